@@ -400,6 +400,26 @@ def flagguard_family(seed, n, maxlen=2, budget=1500):
     return out
 
 
+def nonascii_flag_family(seed, n, maxlen=3, budget=3000):
+    """flags and arguments whose short names are not ASCII, next to words that look like a bundle of such a name and an
+    undeclared letter (`-\u00e9x`: a plain word for bpaf) - every item is still used exactly once or the run fails"""
+    rnd = random.Random(seed)
+    out = []
+    shorts = ["-%C3%A9", "-%E0%B8%81", "-%C3%B1", "-%F0%9F%98%80"]
+    while len(out) < n:
+        i = len(out)
+        f1 = sw("f1", shorts[i % 4])
+        f2 = [sw("f2", "-v"), rf("f2", "count", shorts[(i + 1) % 4]), ar("f2", "opt", "str", "-o", "--out")][i % 3]
+        tail = [NOTAIL, postail(pos("p0", "many")), postail(pos("p0", "opt")), postail(pos("p0", "one"), pos("p1", "opt"))][(i // 2) % 4]
+        d = mkdef(f"naf{seed}_{i}", level([f1, f2], tail), maxlen=maxlen, extras=rnd.choice([("unk",), ("dd",), ()]),
+                  spells=("sep",), words=("first", shorts[i % 4] + "x", "-x" + shorts[i % 4][1:]), clusters=(i % 2 == 0))
+        trim_to_budget(d, budget)
+        if len(d["alpha"]["words"]) < 2:
+            d["alpha"]["words"] = ["first", shorts[i % 4] + "x"]
+        out.append(d)
+    return out
+
+
 def catch_family(seed, n, maxlen=2, budget=1500):
     """optional/many/some arguments with `catch` (C06: the one documented exception): typed and environment values"""
     rnd = random.Random(seed)
